@@ -88,7 +88,15 @@ func runOne(env *rt.Env, task *kapacitor.Task, t *tally, bad *[]string) {
 		}
 		p := rt.MustPoint("m", map[string]string{"g": "a"}, map[string]any{"x": int64(0), "f": 1.5, "s": "str", "b": true}, rt.DefaultTime.T(1))
 		env.Write("db", "rp", p)
+		env.WaitIngress() // WritePoints only enqueues: the point is on the task's source edge once the ingest has forked it
 		env.TM.StopTask(task.ID)
+		if strictRun {
+			// pipelines made of from/where/eval/log only: nothing but the point can make a node fail, and a point may
+			// cause an error for that point at most
+			if e, _ := env.Diag.StoppedWithError(task.ID); e != "" {
+				panic(fmt.Sprintf("the task was killed by a point: %s", e))
+			}
+		}
 	}()
 	select {
 	case x := <-done:
@@ -102,6 +110,10 @@ func runOne(env *rt.Env, task *kapacitor.Task, t *tally, bad *[]string) {
 		*bad = append(*bad, fmt.Sprintf("hang running %q", task.ID))
 	}
 }
+
+// strictRun: a started task that ends with an error counts as a panic (set by families whose pipelines cannot fail for
+// any reason other than the data).
+var strictRun bool
 
 func lambdaOne(src string, t *tally, bad *[]string) {
 	t.n++
@@ -127,8 +139,62 @@ func lambdaOne(src string, t *tally, bad *[]string) {
 	for _, vals := range [][2]any{{int64(0), "a"}, {1.5, ""}, {"s", int64(-1)}, {true, 2.0}, {time.Second, time.Unix(0, 0)}} {
 		sc.Set("x", vals[0])
 		sc.Set("f", vals[1])
+		e.Type(sc) // what EvalPredicate (where, alert, stateDuration, stateCount) does before evaluating
 		e.Eval(sc)
 		e.EvalBool(sc)
+	}
+}
+
+// famFnCall: every built-in function called with 0..6 arguments of every kind (all arguments of one kind, and the first
+// argument of every other kind), through the expression API the nodes use and - for a sample - inside a running task.
+func famFnCall(r *rt.Run, env *rt.Env, emit emitFn) {
+	names := []string{"bool", "int", "float", "string", "duration", "abs", "atan2", "pow", "pow10", "jn", "max", "min", "mod", "sqrt", "floor",
+		"strContains", "strCount", "strIndex", "strLength", "strReplace", "strSubstring", "strToLower", "strTrim", "regexReplace", "isPresent",
+		"unixNano", "minute", "hour", "weekday", "day", "month", "year", "now", "humanBytes", "if", "sigma", "count", "spread", "rand", "nosuch"}
+	args := []string{"1.0", "1", "'s'", "TRUE", "1s", "\"x\"", "\"f\"", "/r/", "\"missing\"", "-1", "0"}
+	nTask := 0
+	strictRun = true
+	defer func() { strictRun = false }()
+	for _, fn := range names {
+		var t tally
+		var bad []string
+		for n := 0; n <= 6; n++ {
+			for ai, a := range args {
+				for bi, b := range args {
+					if n == 0 && (ai > 0 || bi > 0) {
+						continue
+					}
+					if n == 1 && bi > 0 {
+						continue
+					}
+					// first argument a, all others b
+					list := make([]string, n)
+					for i := range list {
+						list[i] = b
+					}
+					if n > 0 {
+						list[0] = a
+					}
+					call := fn + "(" + strings.Join(list, ", ") + ")"
+					for _, src := range []string{call, call + " == 1", call + " > 1.0 AND TRUE"} {
+						lambdaOne(src, &t, &bad)
+					}
+					// inside a running task: the predicate path of where() and the expression path of eval()
+					if ai == bi && (n%2 == 1 || n == 6) || r.Thorough() && ai <= 1 {
+						nTask++
+						var dt tally
+						defineOne(env, fmt.Sprintf("fc%d", nTask), "stream\n|from()\n|where(lambda: "+call+" == 1 OR TRUE)\n|eval(lambda: "+call+").as('r')\n|log()\n", true, &dt, &bad)
+						// and as the predicate itself (EvalPredicate asks for the type of the top-level call)
+						nTask++
+						defineOne(env, fmt.Sprintf("fc%d", nTask), "stream\n|from()\n|where(lambda: "+call+")\n|log()\n", true, &dt, &bad)
+						t.panics += dt.panics
+						t.hangs += dt.hangs
+						t.ran += dt.ran
+					}
+				}
+			}
+		}
+		emit("fncall", 6, fn, t, bad)
 	}
 }
 
@@ -257,7 +323,7 @@ var families = []struct {
 	fn   func(r *rt.Run, env *rt.Env, emit emitFn)
 }{
 	{"tick", famTick}, {"lambda", famLambda}, {"unicode", famUnicode}, {"bytes", famBytes}, {"bytesctx", famBytesCtx},
-	{"mutants", famMutants}, {"vars", famVars}, {"pjson", famPJSON}, {"write", famWrite},
+	{"mutants", famMutants}, {"vars", famVars}, {"pjson", famPJSON}, {"write", famWrite}, {"fncall", famFnCall},
 }
 
 // ---- the input being processed, visible to the parent after a process-fatal outcome ----
